@@ -263,6 +263,8 @@ def e4_effect_action(ctx, rep):
         if not act:
             continue
         cls = [st for st in subterms(pl) if st[0] == "agg" and st[1].startswith("closure:")]
+        # closures captured by the payload closure (a completion callback, ..) are its business
+        cls = [c for c in cls if not any(d is not c and d != c and any(x == c for x in subterms(d)) for d in cls)]
         n += 1
         if len(cls) != 1:
             rep.bad(R, "action-effect-closure", s.where, "Effect::Action is not wrapped in a dispatching closure")
